@@ -62,6 +62,9 @@ CHECKS = {
             'PyCifRW and Python\'s float grammar are outside the claim.', '6/C17'),
     'C19': ('execution of the real parameters class with symbolic values and contract stubs for str/float/int (nearest-double function with rounding contract); path exploration of dumbtypecheck; value/type obligations decided by z3 (LIA/LRA with an uninterpreted rounding function); bounded enumeration of API call sequences against a dictionary model',
             'Bounded model checking: save/load and dumbtypecheck for every integer, every real standing for a float and opaque strings; all call sequences of length <= 3 over 17 concrete operations with symbolic values (about 7000 sequences).', 'Bit-exact float round trip is an assumed contract.', '6/C19'),
+    'C18': ('path exploration of the real reduce_cell (search range uvw=1) on symbolic cells ranging over boxes: argsort as a merge sort with solver-decided comparisons, coplanarity tests as path decisions; unimodularity, metric and minimality obligations decided by z3/cvc5 (QF_NRA)',
+            'Bounded model checking over three boxes of cells and both modules: selected combinations are concrete on each path; metric equality, unimodularity and minimality of the first two vectors are decided for every cell of the box. '
+            'The default search range uvw=3 (sorting 216 symbolic norms) is outside the bound.', 'Known finding (pinned): rows/columns mix-up in the final a_to_cell step, both modules.', '6/C18'),
 }
 NA_REASON = {}
 
